@@ -353,3 +353,47 @@ Theorem c15_priors_every_registration :
   forall t, NoDup (ids t) -> named_priors t = regs t.
 Proof. exact named_priors_tree_all. Qed.
 Print Assumptions c15_priors_every_registration.
+
+(* ------------------------------------------------------------------------------------------ *)
+(* KL >= 0 and the ELBO bound for ALL symmetric positive definite covariances                  *)
+(* (Base/Cholesky.v, Proofs/C10_kl_pd.v, Proofs/C15_kl_pd.v)                                    *)
+From GPV Require Import Base.Psd Base.Cholesky Proofs.C10_kl_pd Proofs.C15_kl_pd.
+
+(* [c15_kl_nonneg] without factor hypotheses: for EVERY q(u) = N(mq, S) with symmetric positive
+   definite S and EVERY symmetric positive definite prior covariance Kzz ([PD] of Base/Psd.v), Kinv ANY
+   inverse of Kzz, every size: both determinants are positive, the model's 2 KL is >= 0, and it is 0
+   at q(u) = p(u).  (The Cholesky factors are constructed: c10_pd_has_cholesky_factor.) *)
+Theorem c15_kl_nonneg_pd :
+  forall n (Kzz Kinv S mq mz : @M RF),
+    @symmetric RF n S -> @PD RF ROrd n S -> @symmetric RF n Kzz -> @PD RF ROrd n Kzz ->
+    @is_inverse RF n Kzz Kinv ->
+    (0 < @det RF n S)%R /\ (0 < @det RF n Kzz)%R /\ (0 <= kl2_model n Kzz Kinv S mq mz)%R /\
+    (@meq RF n n S Kzz -> @meq RF n 1 mq mz -> kl2_model n Kzz Kinv S mq mz = 0%R).
+Proof. exact kl2_model_nonneg_pd. Qed.
+Print Assumptions c15_kl_nonneg_pd.
+
+(* the bound along the KL term at that generality *)
+Theorem c15_elbo_le_likelihood_term_pd :
+  forall n (Kzz Kinv S mq mz : @M RF) (ell nb beta nd lp added : R),
+    @symmetric RF n S -> @PD RF ROrd n S -> @symmetric RF n Kzz -> @PD RF ROrd n Kzz ->
+    @is_inverse RF n Kzz Kinv ->
+    (0 < beta)%R -> (0 < nd)%R ->
+    (@elbo_value RF ell nb (/ 2 * kl2_model n Kzz Kinv S mq mz) beta nd lp added
+     <= ell / nb + lp / nd - added)%R.
+Proof. exact elbo_le_likelihood_term_pd. Qed.
+Print Assumptions c15_elbo_le_likelihood_term_pd.
+
+(* ... and it is attained at q(u) = prior *)
+Theorem c15_elbo_eq_likelihood_term_at_prior :
+  forall n (Kzz Kinv mz : @M RF) (ell nb beta nd lp added : R),
+    @symmetric RF n Kzz -> @PD RF ROrd n Kzz -> @is_inverse RF n Kzz Kinv ->
+    (@elbo_value RF ell nb (/ 2 * kl2_model n Kzz Kinv Kzz mz mz) beta nd lp added
+     = ell / nb + lp / nd - added)%R.
+Proof. exact elbo_eq_likelihood_term_at_prior. Qed.
+Print Assumptions c15_elbo_eq_likelihood_term_at_prior.
+
+(* non-vacuity: S = Kzz = [[2,1],[1,2]] (not given in factored form) with its inverse *)
+Example ex_c15_kl_nonneg_pd_hypotheses :
+  @symmetric RF 2 exPD /\ @PD RF ROrd 2 exPD /\ @is_inverse RF 2 exPD exPD_inv.
+Proof. exact ex_kl2_model_pd_hyps. Qed.
+Print Assumptions ex_c15_kl_nonneg_pd_hypotheses.
